@@ -1,5 +1,5 @@
 import SaModel.Props.C18
-import SaModel.Props.C01Complete
+import SaModel.Props.C01CompleteObs
 import SaModel.Lemmas.C18BlamePush
 import SaModel.Lemmas.C18BlameRaw
 /-
@@ -9,8 +9,12 @@ C18 — blame against the SPECIFICATION (serializer side).
 documented mapping `Spec.interpDT` is undefined for `x` for a reason of that position's own: the deepest positions
 where it fails, plus containers whose own structural condition fails.  `Props/C18.lean` proves that an error names a
 builder of the subtree whose own step failed; here: that position is one the SPECIFICATION blames.  The link is the
-completeness of `push` (Props/C01Complete.lean): an own step fails only where the mapping is undefined — or a capacity
-check fires (`NoCap` excludes those; `C18_capacity_blame` says where they are reported).
+completeness of `push` on the WEAK state invariant (Props/C01CompleteObs.lean, the hidden-rows refinement: NO `Safe`
+hypothesis): an own step fails only where the mapping is undefined — or a capacity check fires (`NoCap` excludes those;
+`C18_capacity_blame` says where they are reported).  State hypotheses of the theorems: `WFH` (weak state invariant) and
+`NoDictKey` (no dictionary-keyed dictionary) — both hold of every state reached from a builder `build_builder` constructs,
+for EVERY schema (`Build.runRows_rowsH`), and are implied by the former hypotheses `WFB`, `Safe` (`WFH_of_WFB`,
+`NoDictKey_of_Safe`).
 -/
 namespace SaModel.Props.C18
 open SaModel SaModel.Build SaModel.Spec
@@ -24,7 +28,7 @@ theorem foldl_push_takeRest (ext : Ext) : ∀ (rows : List SVal) (b0 b : B), row
     rw [foldl_push_takeRest ext rest b1 b h, push_takeRest ext x b0 b1 h1]
 
 /-- **C18_ser_blame.**  A builder created by `build_builder` at `path` for a field of type `dt`, after any
-successfully pushed rows, under the hypotheses of `push_err_iff` (WFB, Safe, Shape, total, noRaw, NoCap): an error of the
+successfully pushed rows, under the hypotheses of `push_err_iff'` (WFH, NoDictKey, Shape, total, noRaw, NoCap — no `Safe`): an error of the
 next `push` — for EVERY serde value without raw key / value streams: `Some` / newtype layers, `None`, unit, every scalar
 call, bytes, sequences, tuples, tuple structs, struct records, maps (into struct builders and into map builders), unit /
 newtype / tuple / struct variants, nested arbitrarily, into EVERY builder family — is annotated `field` = `render path
@@ -35,13 +39,13 @@ variant presented to a list-typed variant column, was a coarse arm of the SPECIF
 theorem C18_ser_blame (ext : Ext) [ExtPlain ext] (dt : DataType) (path : String) (n : Bool) (md : Metadata)
     (b0 : B) (h0 : newDT path dt n md = .ok b0) (rows : List SVal) (b : B) (hb : rows.foldlM (push ext) b0 = .ok b)
     (x : SVal)
-    (hwf : WFB b) (hsafe : Safe b) (hshape : Shape b dt n md) (htot : total dt n md = true) (hraw : noRaw x = true)
+    (hwf : WFH b) (hnd : NoDictKey b) (hshape : Shape b dt n md) (htot : total dt n md = true) (hraw : noRaw x = true)
     (hcap : NoCap ext b x) (msg : String) (ann : List (String × String)) (h : push ext b x = .error (.errCtx msg ann)) :
     ∃ segs label, (segs, label) ∈ segsDT dt md ∧ ann = [("data_type", label), ("field", render path segs)] ∧
       render path segs ∈ blameDT ext path dt n md x := by
   have hat : At path dt n md b :=
     ⟨b0, h0, foldl_push_takeRest ext rows b0 b hb⟩
-  obtain ⟨p, hp, hf⟩ := push_bl ext x hraw b path dt n md ⟨hwf, hsafe, hshape, htot⟩ hat hcap msg ann h
+  obtain ⟨p, hp, hf⟩ := push_bl ext x hraw b path dt n md ⟨hwf, hnd, hshape, htot⟩ hat hcap msg ann h
   rcases push_error_in_schema ext dt path n md b0 h0 rows b hb x _ h with ⟨s, hs⟩ | ⟨msg', segs, label, hmem, he⟩
   · cases hs
   · cases he
@@ -52,14 +56,14 @@ theorem C18_ser_blame (ext : Ext) [ExtPlain ext] (dt : DataType) (path : String)
 /-- the same at the record level (`to_marrow` / `ArrayBuilder::push`): `$`-rooted paths, `Spec.blameRow` -/
 theorem C18_ser_blame_record (ext : Ext) [ExtPlain ext] (fields : List Field) (root0 : B)
     (h0 : newRoot fields = .ok root0) (rows : List SVal) (root : B) (hb : rows.foldlM (push ext) root0 = .ok root)
-    (x : SVal) (hwf : WFB root) (hsafe : Safe root)
+    (x : SVal) (hwf : WFH root) (hnd : NoDictKey root)
     (hshape : Shape root (.struct (Fields.ofList fields)) false [])
     (htot : total (.struct (Fields.ofList fields)) false [] = true) (hraw : noRaw x = true) (hcap : NoCap ext root x)
     (msg : String) (ann : List (String × String)) (h : push ext root x = .error (.errCtx msg ann)) :
     ∃ segs label, (segs, label) ∈ segsDT (.struct (Fields.ofList fields)) [] ∧
       ann = [("data_type", label), ("field", render "$" segs)] ∧ render "$" segs ∈ blameRow ext fields x :=
   C18_ser_blame ext (.struct (Fields.ofList fields)) "$" false [] root0 (by simpa [newRoot, newDT] using h0) rows root hb
-    x hwf hsafe hshape htot hraw hcap msg ann h
+    x hwf hnd hshape htot hraw hcap msg ann h
 
 /-- **C18_ser_blame_raw** (the one step beyond `noRaw`): the value is a WELL-FORMED raw stream of `serialize_key` /
 `serialize_value` calls (`isAlternating ops`: what serde's default `serialize_entry` issues) whose keys and values carry
@@ -71,7 +75,7 @@ hypothesis is stated for the entries (`vsize (.mapRaw _)` does not measure them)
 theorem C18_ser_blame_raw (ext : Ext) [ExtPlain ext] (dt : DataType) (path : String) (n : Bool) (md : Metadata)
     (b0 : B) (h0 : newDT path dt n md = .ok b0) (rows : List SVal) (b : B) (hb : rows.foldlM (push ext) b0 = .ok b)
     (ops : SMapOps) (halt : isAlternating ops = true)
-    (hwf : WFB b) (hsafe : Safe b) (hshape : Shape b dt n md) (htot : total dt n md = true)
+    (hwf : WFH b) (hnd : NoDictKey b) (hshape : Shape b dt n md) (htot : total dt n md = true)
     (hraw : noRawe (toEntries ops) = true) (hcap : NoCap ext b (.map (toEntries ops)))
     (hbig : ∀ p len v fs c nx sn, b = .struct p len v fs c nx sn → fs.length ≤ UNKNOWN_KEY)
     (msg : String) (ann : List (String × String)) (h : push ext b (.mapRaw ops) = .error (.errCtx msg ann)) :
@@ -79,7 +83,7 @@ theorem C18_ser_blame_raw (ext : Ext) [ExtPlain ext] (dt : DataType) (path : Str
       render path segs ∈ blameDT ext path dt n md (.mapRaw ops) := by
   rw [push_mapRaw_alt ext b ops halt hbig] at h
   rw [blameDT_mapRaw_alt ext path dt n md ops halt]
-  exact C18_ser_blame ext dt path n md b0 h0 rows b hb (.map (toEntries ops)) hwf hsafe hshape htot
+  exact C18_ser_blame ext dt path n md b0 h0 rows b hb (.map (toEntries ops)) hwf hnd hshape htot
     (by simpa [noRaw] using hraw) hcap msg ann h
 
 /-! ### non-vacuity -/
@@ -221,7 +225,7 @@ entries' position.
 (4) `ListBuilder::serialize_bytes` (every byte an element): the same as (1) with the number of bytes. -/
 theorem C18_capacity_blame (ext : Ext) [ExtPlain ext] :
     (∀ (p : String) (large : Bool) (fm : FieldMeta) (v : Validity) (offs : List Int) (el : B) (xs : SVals) (x : SVal)
-      (msg : String), x = .seq xs ∨ x = .tuple xs ∨ (∃ nm, x = .tupleStruct nm xs) → WFB (.list p large fm v offs el) →
+      (msg : String), x = .seq xs ∨ x = .tuple xs ∨ (∃ nm, x = .tupleStruct nm xs) → WFH (.list p large fm v offs el) →
       callBody ext (.list p large fm v offs el) (.val x) = .error (.err msg) →
       msg = "offset overflow" ∧ ((dec el).length : Int) + xs.length > offMax large ∧
       push ext (.list p large fm v offs el) x =
@@ -229,19 +233,19 @@ theorem C18_capacity_blame (ext : Ext) [ExtPlain ext] :
     (∀ (b : B) (x : SVal) (msg : String) (ann : List (String × String)), isFlatOwner b = true → isScalarCall x = true →
       push ext b x = .error (.errCtx msg ann) → ann = [("data_type", b.label), ("field", b.path)]) ∧
     (∀ (p : String) (mm : MapMeta) (v : Validity) (offs : List Int) (ks vs : B) (es : SEntries) (msg : String),
-      WFB (.map p mm v offs ks vs) → callBody ext (.map p mm v offs ks vs) (.val (.map es)) = .error (.err msg) →
+      WFH (.map p mm v offs ks vs) → callBody ext (.map p mm v offs ks vs) (.val (.map es)) = .error (.err msg) →
       msg = "offset overflow" ∧ ((dec ks).length : Int) + elen es > offMax false ∧
       push ext (.map p mm v offs ks vs) (.map es) =
         .error (.errCtx "offset overflow" [("data_type", "Map(..)"), ("field", p)])) ∧
     (∀ (p : String) (large : Bool) (fm : FieldMeta) (v : Validity) (offs : List Int) (el : B) (bs : Bytes) (msg : String),
-      WFB (.list p large fm v offs el) → callBody ext (.list p large fm v offs el) (.val (.bytes bs)) = .error (.err msg) →
+      WFH (.list p large fm v offs el) → callBody ext (.list p large fm v offs el) (.val (.bytes bs)) = .error (.err msg) →
       msg = "offset overflow" ∧ ((dec el).length : Int) + bs.length > offMax large ∧
       push ext (.list p large fm v offs el) (.bytes bs) =
         .error (.errCtx "offset overflow" [("data_type", if large then "LargeList" else "List"), ("field", p)])) := by
   refine ⟨?_, ?_, ?_, ?_⟩
   · intro p large fm v offs el xs x msg hx hw hbody
     have hw' := hw
-    simp only [WFB] at hw'
+    simp only [WFH] at hw'
     have hlast := hw'.1.2.1
     obtain ⟨v', hv'⟩ := setValidity_true_total v (offs.length - 1)
     have key : ∀ k, seqLikeWith (fun large el offs => pushElems ext large el offs xs) (fun el c => pushCountElems ext el c xs)
@@ -283,7 +287,7 @@ theorem C18_capacity_blame (ext : Ext) [ExtPlain ext] :
       | errCtx m a => exact absurd hr ((pushScalar_noctx ext b x).out m a)
   · intro p mm v offs ks vs es msg hw hbody
     have hw' := hw
-    simp only [WFB] at hw'
+    simp only [WFH] at hw'
     have hlast := hw'.1.2.1
     obtain ⟨v', hv'⟩ := setValidity_true_total v (offs.length - 1)
     have hres : msg = "offset overflow" ∧ ((dec ks).length : Int) + elen es > offMax false := by
@@ -301,7 +305,7 @@ theorem C18_capacity_blame (ext : Ext) [ExtPlain ext] :
     rfl
   · intro p large fm v offs el bs msg hw hbody
     have hw' := hw
-    simp only [WFB] at hw'
+    simp only [WFH] at hw'
     have hlast := hw'.1.2.1
     obtain ⟨v', hv'⟩ := setValidity_true_total v (offs.length - 1)
     have hres : msg = "offset overflow" ∧ ((dec el).length : Int) + bs.length > offMax large := by
@@ -362,5 +366,35 @@ theorem dict_null_cell_pinned :
       .error (.errCtx "Cannot push null for non-nullable array" [("data_type", "Int8"), ("field", "$.d.key")]) ∧
     "$.d.key" ∉ blameRow {} [.mk "d" (.dictionary .int8 .utf8) false []] (.record "R" (.cons "d" 0 .none .nil)) :=
   ⟨by decide +kernel, by decide +kernel⟩
+
+/-! ### non-vacuity OUTSIDE `Safe`
+
+The schema `Props.C01.exUnsafeFields` = `{s: Struct{d: Dictionary(UInt8, Utf8)}?}` (a dictionary with NON-nullable keys below
+a nullable struct, `C01.exUnsafe_not_safe`), after the record `s = None`: the dictionary below the null holds the placeholder
+key 0 and no value — a state that violates the strict invariant (`C01.exUnsafeAfter1_not_WFB`) and satisfies the weak one.
+The next record gives the non-nullable dictionary field a `None`. -/
+
+def exRowDictNone : SVal := .record "R" (.cons "s" 0 (.some (.record "S" (.cons "d" 0 .none .nil))) .nil)
+
+/-- `C18_ser_blame_record` applies on that state with every hypothesis discharged … -/
+example : ∀ msg ann, push {} C01.exUnsafeAfter1 exRowDictNone = .error (.errCtx msg ann) →
+    ∃ segs label, (segs, label) ∈ segsDT (.struct (Fields.ofList C01.exUnsafeFields)) [] ∧
+      ann = [("data_type", label), ("field", render "$" segs)] ∧
+      render "$" segs ∈ blameRow {} C01.exUnsafeFields exRowDictNone := by
+  intro msg ann h
+  obtain ⟨hw, hn, _, _, ht, _⟩ := Build.runRows_rowsH {} C01.exUnsafeFields (C01.exUnsafeRows.take 1) _ _
+    C01.exUnsafeNewRoot_eq C01.exUnsafeAfter1_run
+  have hsh : Shape C01.exUnsafeAfter1 (.struct (Fields.ofList C01.exUnsafeFields)) false [] :=
+    Shape.of_takeRest (ht.trans (newRoot_fresh C01.exUnsafeNewRoot_eq).2.2.symm)
+      (newRoot_shape (fields := C01.exUnsafeFields) (by decide) C01.exUnsafeNewRoot_eq)
+  exact C18_ser_blame_record {} C01.exUnsafeFields C01.exUnsafeNewRoot C01.exUnsafeNewRoot_eq (C01.exUnsafeRows.take 1)
+    C01.exUnsafeAfter1 (by decide +kernel) exRowDictNone hw hn hsh (by decide) (by decide)
+    (by unfold NoCap; decide +kernel) msg ann h
+
+/-- … and the push does fail there, under the dictionary column's own path, which is what the specification blames -/
+example : push {} C01.exUnsafeAfter1 exRowDictNone =
+      .error (.errCtx "Cannot push null for non-nullable array" [("data_type", "Dictionary(..)"), ("field", "$.s.d")]) ∧
+    blameRow {} C01.exUnsafeFields exRowDictNone = ["$.s.d"] := by
+  constructor <;> decide +kernel
 
 end SaModel.Props.C18
